@@ -23,6 +23,7 @@ type gline struct {
 }
 
 type gsection struct {
+	typ        string // ".romtext" (default) or ".ramtext"
 	name       string
 	iomode     string // "", "async", "sync" on the %section line
 	lines      []gline
@@ -79,6 +80,14 @@ func genSection(r *common.Rng, name string, rsize int, effMode string, secMode s
 		names = append(names, nm)
 	}
 	s.entryLabel = names[0]
+	// labels written on the `entry` directive line itself (they denote the instruction that follows it):
+	// the entry symbol, another label (also a jump target), or both
+	dirLabels := []string{}
+	dirVariant := r.Intn(8) // 0: entry symbol moves to the directive, 1: another label, 2: both, else none
+	if dirVariant == 1 || dirVariant == 2 {
+		dirLabels = append(dirLabels, "dl0")
+		names = append(names, "dl0")
+	}
 	for at, ls := range labAt {
 		for _, l := range ls {
 			if l == s.entryLabel {
@@ -143,13 +152,37 @@ func genSection(r *common.Rng, name string, rsize int, effMode string, secMode s
 	if r.Chance(1, 3) {
 		pos = r.Intn(n + 1)
 	}
-	e := gline{entry: true, text: "entry " + s.entryLabel}
+	if len(dirLabels) > 0 && r.Chance(1, 2) {
+		pos = 0 // a section that opens with a labelled directive
+	}
+	if (dirVariant == 0 || dirVariant == 2) && pos < n {
+		// move the entry symbol from its instruction onto the directive
+		for i := range s.lines {
+			var keep []string
+			for _, lb := range s.lines[i].labels {
+				if lb != s.entryLabel {
+					keep = append(keep, lb)
+				}
+			}
+			s.lines[i].labels = keep
+		}
+		dirLabels = append(dirLabels, s.entryLabel)
+		s.entryFirst = pos == 0
+	}
+	if len(dirLabels) > 0 && pos >= n {
+		pos = n - 1 // keep an instruction after a labelled directive (else the tool rightly rejects)
+	}
+	e := gline{entry: true, text: "entry " + s.entryLabel, labels: dirLabels}
 	s.lines = append(s.lines[:pos], append([]gline{e}, s.lines[pos:]...)...)
 	return s
 }
 
 func (s gsection) render(b *strings.Builder, r *common.Rng) {
-	b.WriteString("%section " + s.name + " .romtext")
+	typ := s.typ
+	if typ == "" {
+		typ = ".romtext"
+	}
+	b.WriteString("%section " + s.name + " " + typ)
 	if s.iomode != "" {
 		b.WriteString(" iomode:" + s.iomode)
 	}
@@ -380,6 +413,77 @@ func GenCase(r *common.Rng) Case {
 	if !metaFirst {
 		metas()
 	}
+	c.Text = b.String()
+	return c
+}
+
+// GenExtCase generates a source that uses constructs outside the C05 model but inside what the
+// real front-end accepts, for the per-instance validation of C16: processors with both a ROM and
+// a RAM code section (execution mode hy / vn) whose sections share opcodes, and ROM / RAM data
+// sections whose sizes straddle the powers of two (code + data = 2^k-1, 2^k, 2^k+1).
+func GenExtCase(r *common.Rng) Case {
+	rsize := []int{8, 16, 32}[r.Intn(3)]
+	var b strings.Builder
+	c := Case{}
+	mode := pick(r, []string{"async", "sync"})
+	rom := genSection(r, "romc", rsize, mode, mode)
+	// make sure the word is at least 8 bits wide (needed by data sections) and that a register is used
+	rom.lines = append(rom.lines, gline{text: "rset r0, " + genLiteral(r, rsize)})
+	ncode := 0
+	for _, l := range rom.lines {
+		if !l.entry {
+			ncode++
+		}
+	}
+	cp := "%meta cpdef cpu romcode:romc"
+	switch r.Intn(3) {
+	case 0:
+		c.Kind = "ext:hy"
+		ram := genSection(r, "ramc", rsize, mode, mode)
+		ram.typ = ".ramtext"
+		rom.render(&b, r)
+		ram.render(&b, r)
+		cp += ", ramcode:ramc, execmode:" + pick(r, []string{"hy", "hy", "vn"})
+	default:
+		c.Kind = "ext:romdata"
+		k := 2 + r.Intn(4)
+		for (1<<uint(k))-1-ncode < 1 {
+			k++
+		}
+		total := (1 << uint(k)) - 1 + r.Intn(3) // 2^k-1, 2^k, 2^k+1
+		ndata := total - ncode
+		rom.render(&b, r)
+		vals := make([]string, ndata)
+		for i := range vals {
+			vals[i] = fmt.Sprintf("0x%02x", r.Intn(256))
+		}
+		// one or two data lines
+		cut := ndata
+		if ndata > 2 && r.Bool() {
+			cut = 1 + r.Intn(ndata-1)
+		}
+		b.WriteString("%section datao .romdata\n\tv1 db " + strings.Join(vals[:cut], ", ") + "\n")
+		if cut < ndata {
+			b.WriteString("\tv2 db " + strings.Join(vals[cut:], ", ") + "\n")
+		}
+		b.WriteString("%endsection\n")
+		cp += ", romdata:datao"
+		if r.Bool() {
+			c.Kind = "ext:romdata+ramdata"
+			nr := []int{1, 3, 4, 5, 7, 8, 9}[r.Intn(7)]
+			rv := make([]string, nr)
+			for i := range rv {
+				rv[i] = fmt.Sprintf("0x%02x", r.Intn(256))
+			}
+			b.WriteString("%section dataa .ramdata\n\tw1 db " + strings.Join(rv, ", ") + "\n%endsection\n")
+			cp += ", ramdata:dataa"
+		}
+	}
+	b.WriteString(cp + "\n")
+	for o := 0; o < rom.nOut; o++ {
+		fmt.Fprintf(&b, "%%meta ioatt xo%d cp:cpu, type:output, index:%d\n%%meta ioatt xo%d cp:bm, type:output, index:%d\n", o, o, o, o)
+	}
+	b.WriteString("%meta bmdef global registersize:" + strconv.Itoa(rsize) + "\n")
 	c.Text = b.String()
 	return c
 }
